@@ -375,6 +375,51 @@ def check_eager(ld, n, variant, res):
 FALSY = [None, 0, '', [], {}, False, 0.0, ()]
 
 
+def check_big_example(ld, res):
+    """One example that is larger than the head room above the threshold
+    (free memory 8 GiB + 1 MiB, keep_mem_free 8 GB, a 4.8 MB array among small
+    ones): the reported free memory never reaches the threshold, so every
+    example - the big one included, and all that follow - is computed once,
+    through the dataset, its copy and a thread prefetch."""
+    for kind in ('ndarray', 'bytes', 'list-of-floats'):
+        for big_at in (0, 2, 5):
+            MEM.avail = 8 * GB + (1 << 20)
+            calls = collections.Counter()
+
+            def up(x, calls=calls, kind=kind, big_at=big_at):
+                calls[x] += 1
+                if x != big_at:
+                    return (x, calls[x])
+                if kind == 'ndarray':
+                    return np.full(600_000, float(x))
+                if kind == 'bytes':
+                    return bytes(5_000_000)
+                return [float(x)] * 300_000
+            case = {'big_example': kind, 'at': big_at, 'n': 6, 'head_room': '1 MiB'}
+            res.case(('big', kind, big_at), True)
+            import warnings
+            try:
+                with warnings.catch_warnings(record=True) as caught:
+                    warnings.simplefilter('always')
+                    ds = ld.new(list(range(6))).map(up).cache(keep_mem_free='8 GB')
+                    list(ds)
+                    list(ds.copy())
+                    [ds[i] for i in (5, 4, 3, 2, 1, 0)]
+                    list(ds.prefetch(2, 2, 't'))
+                    list(ds)
+            except BaseException as e:
+                res.violation('access-raised', case, exc_sig(e), sig={'access': 'big-example'})
+                continue
+            finally:
+                MEM.avail = 16 * GB
+            res.count('big_example_histories')
+            if any(c != 1 for c in calls.values()) or sorted(calls) != list(range(6)):
+                res.violation('recomputed', case,
+                              {'computations': dict(calls),
+                               'warnings': [str(w.message)[:80] for w in caught]},
+                              sig={'access': 'big-example', 'after_threshold': False})
+
+
 def check_falsy(ld, res):
     """Examples whose value is None / falsy are cached like any other."""
     n = len(FALSY)
@@ -584,6 +629,7 @@ def run_shard(spec, res):
             for variant in ('indexable', 'filtered', 'list', 'shuffled-once'):
                 check_eager(ld, n, variant, res)
         check_falsy(ld, res)
+        check_big_example(ld, res)
     res.count('memory_polls', MEM.polls)
 
 
@@ -598,6 +644,8 @@ def finalize(res, tier):
 def replay(case, res):
     ld = import_lazy_dataset()
     install_mem()
+    if 'big_example' in case:
+        return check_big_example(ld, res)
     if 'eager' in case:
         check_eager(ld, case['n'], case['eager'], res)
     else:
